@@ -268,9 +268,13 @@ class QuicSession:
             self.set_initial_decryptor(dcid, False)
 
         isserver = self.packet_isserver(packet, dcid)
+        datagram = packet
 
         while len(packet.tls_data) != 0:
             quic_packets, packet = extract_quic_packet(in_packet=packet, isserver=isserver, guessed_dcid=dcid, keys=self.keys, ciphersuite=self.tls_session.ciphersuite)
+
+            for quic_packet in quic_packets:
+                quic_packet.datagram = datagram
 
             self.packet_buffer_quic.extend(quic_packets)
 
